@@ -246,6 +246,9 @@ def run_case(case, gen_rng=None):
         th = Wi.thunk_for(i)
         res = Wi.k.run_single(th, task_id=i)
         iso = _task_view(Wi, i, res)
+        if canon.mentions_recursion([iso, sim_views[i]]):
+            stats['recursion_not_comparable'] = stats.get('recursion_not_comparable', 0) + 1
+            continue
         if iso[0] != sim_views[i][0]:
             viols.append({'clause': 'isolated-equivalence', 'sig': 'isolated-equivalence/outcome',
                           'expected': iso[0], 'observed': sim_views[i][0], 'task': i,
@@ -267,7 +270,7 @@ def run_case(case, gen_rng=None):
         stats['lazy_render_runs'] = stats.get('lazy_render_runs', 0) + 1
         We = _World(case, only_task=i)
         eager = canon.outcome(We.k.run_single(We.thunk_for(i), task_id=i), We.B.idmap)
-        if lazy != eager:
+        if lazy != eager and not canon.mentions_recursion([lazy, eager]):
             viols.append({'clause': 'reentrant-rendering', 'sig': 'reentrant-rendering/outer-trace-depends-on-when-inner-error-is-rendered',
                           'expected': eager, 'observed': lazy, 'task': i, 'digest': digest})
     # ---- nested calls: the inner recipe alone at top level
@@ -289,6 +292,8 @@ def run_case(case, gen_rng=None):
         G = Wn.G
         res = Wn.k.run_single(lambda: G.glom(tgt, spec), task_id=task)
         alone = canon.outcome(res, Wn.B.idmap)
+        if canon.mentions_recursion([alone, outs[0][4]]):
+            continue
         if alone != outs[0][4]:
             viols.append({'clause': 'nested-equivalence', 'sig': 'nested-equivalence/outcome',
                           'expected': alone, 'observed': outs[0][4], 'task': task, 'digest': digest})
